@@ -4,9 +4,11 @@ import (
 	"bytes"
 	"encoding/json"
 	"fmt"
+	"os"
 	"path/filepath"
 	"strings"
 	"sync/atomic"
+	"time"
 
 	"verif/internal/core"
 )
@@ -87,6 +89,8 @@ func c12Mutations(name string, base core.Store, thorough bool) []c12Log {
 		// unknown event type / blank line / CRLF at this position
 		unk := append(append(append([][]byte{}, lines[:i]...), []byte(`{"type":"future_event","ts":"2026-01-01T00:00:00Z","data":{"id":"X","anything":[1,2,3]}}`+"\n")), lines[i:]...)
 		add("unknown-type", fmt.Sprintf("unknown event type before line %d", i+1), join(unk))
+		bare := append(append(append([][]byte{}, lines[:i]...), []byte(`{"type":"note","ts":"2026-01-01T00:00:00Z"}`+"\n")), lines[i:]...)
+		add("unknown-type", fmt.Sprintf("unknown event type without a data member before line %d", i+1), join(bare))
 		bl := append(append(append([][]byte{}, lines[:i]...), []byte("\n  \n")), lines[i:]...)
 		add("blank-lines", fmt.Sprintf("blank lines before line %d", i+1), join(bl))
 	}
@@ -481,11 +485,13 @@ func runC12(env *core.Env) {
 			samples.add(map[string]interface{}{"log": j.m.Desc})
 		}
 	})
+	layeredCov := c12Layered(env)
 	validated := conf.run(env)
 	env.Finish("model_checking", map[string]interface{}{
-		"states": evals, "transitions": commands, "traces_validated_against_impl": validated, "samples": samples.list,
+		"layered_store": layeredCov,
+		"states":        evals, "transitions": commands, "traces_validated_against_impl": validated, "samples": samples.list,
 		"evaluations": evals, "distinct_nontrivial": classes.len(), "exhaustive": env.TimeLeft(),
-		"rule":         "log contents = seeds (CLI-produced logs, a hand-merged log with equal timestamps, a hand-merged log with dependency cycles among siblings, unfiled tasks and epics, thorough: the legacy sample) x {every truncation offset (quick: last two lines fully, every 7th elsewhere), every line delete/duplicate/adjacent swap, conflict markers / unknown event type / blank lines at every position, all permutations of the first 5 (6) lines, one (8) bit flips per byte, every field of every event replaced by null/0/true/[]/{}/\"\"/bad timestamps/a 120-byte and a 120-column string or removed, all timestamps of a line removed or emptied, empty/CRLF/BOM/NUL/garbage/no-trailing-newline, a 10 MiB-1 and a 10 MiB+1 line}; each x 15 read commands (4 of them with -q / --quiet) (3x, 8x on equal sort keys) and 6 mutating commands; distinct = (mutation family, command, exit)",
+		"rule": "log contents = seeds (CLI-produced logs, a hand-merged log with equal timestamps, a hand-merged log with dependency cycles among siblings, unfiled tasks and epics, thorough: the legacy sample) x {every truncation offset (quick: last two lines fully, every 7th elsewhere), every line delete/duplicate/adjacent swap, conflict markers / unknown event type / blank lines at every position, all permutations of the first 5 (6) lines, one (8) bit flips per byte, every field of every event replaced by null/0/true/[]/{}/\"\"/bad timestamps/a 120-byte and a 120-column string or removed, all timestamps of a line removed or emptied, empty/CRLF/BOM/NUL/garbage/no-trailing-newline, a 10 MiB-1 and a 10 MiB+1 line}; each x 15 read commands (4 of them with -q / --quiet) (3x, 8x on equal sort keys) and 6 mutating commands; distinct = (mutation family, command, exit)",
 		"error_messages_checked_on_spawned_binary": spawnedMsgs,
 		"commands_run": commands, "commands_exiting_1": failing, "nondeterministic_outputs": nondet, "seeds": len(seeds),
 		"unconfirmed_candidates": unconfirmed.Load(),
@@ -493,4 +499,103 @@ func runC12(env *core.Env) {
 		"Go's map-iteration seed cannot be enumerated: output determinism is decided by repetition (a difference is always real; absence after k runs is evidence, not enumeration)",
 		"'terminates promptly' = the in-process server answers within its 60 s watchdog",
 	})
+}
+
+// c12Layered: "terminates promptly" on a valid store whose dependency graph has very many paths but few nodes: 22 stages
+// of 3 tasks, every task depending on all tasks of the stage before (66 tasks, 189 edges, 3^21 paths). Every command of
+// the list must answer within the server's watchdog; walking nodes takes milliseconds, walking paths never ends.
+func c12Layered(env *core.Env) map[string]interface{} {
+	l := newSynLog()
+	const stages, width = 22, 3
+	var ids [stages][width]string
+	for s := 0; s < stages; s++ {
+		for k := 0; k < width; k++ {
+			ids[s][k] = core.IDFor(int64(20000 + s*width + k))
+			l.Create(SynItem{ID: ids[s][k], Title: fmt.Sprintf("stage %d / %d", s, k)})
+		}
+	}
+	for s := 1; s < stages; s++ {
+		for k := 0; k < width; k++ {
+			for j := 0; j < width; j++ {
+				l.Link(ids[s][k], ids[s-1][j])
+			}
+		}
+	}
+	fresh := core.IDFor(29999)
+	l.Create(SynItem{ID: fresh, Title: "fresh"})
+	st := core.Store{".ergo/plans.jsonl": l.Bytes(), ".ergo/lock": nil}
+	top, bottom := ids[stages-1][0], ids[0][0]
+	cmds := []core.Req{
+		core.R("", "--json", "list", "--all"), core.R("", "list").In(""), core.R("", "--json", "show", top),
+		core.R("", "--json", "sequence", top, fresh),    // fresh depends on the top: acyclic
+		core.R("", "--json", "sequence", fresh, bottom), // the bottom depends on fresh: acyclic
+		core.R("", "--json", "sequence", top, bottom),   // would close a cycle: must be refused, promptly
+		core.R("", "--json", "sequence", "rm", top, ids[stages-2][0]),
+		core.R("", "--json", "plan").In(`{"title":"P","tasks":[{"title":"a"},{"title":"b","after":["a"]},{"title":"c","after":["a","b"]}]}`),
+		core.R("", "--json", "claim", "--agent", "z"), core.R("", "--json", "set", top).In(`{"state":"done"}`),
+		core.R("", "--json", "prune", "--yes"), core.R("", "--json", "compact"),
+	}
+	var ran int64
+	env.Parallel(len(cmds), func(w *core.Worker, i int) {
+		st.Materialize(w.Proj)
+		req := cmds[i]
+		req.Cwd = w.Proj
+		req.RandBase = 31000
+		t0 := time.Now()
+		res := w.Run(req)
+		atomic.AddInt64(&ran, 1)
+		if res.Timeout || res.Panic || time.Since(t0) > 30*time.Second {
+			sig := "C12 kind=does-not-terminate-promptly cmd=" + opClass(req)
+			if !env.ViolationSeen(sig) {
+				env.Violation(sig, fmt.Sprintf("on a valid store of %d tasks in %d stages (each task depends on all %d tasks of the stage before) `%s` had not answered after %s: %s", stages*width+1, stages, width, cmds[i].Shell(), time.Since(t0).Round(time.Second), res.String()),
+					map[string]interface{}{"kind": "layered", "req": cmds[i]})
+			}
+		}
+	})
+	return map[string]interface{}{"tasks": stages*width + 1, "stages": stages, "commands": ran,
+		"rule": "22 stages x 3 tasks, complete dependencies between consecutive stages; 12 commands (reads, acyclic and cycle-closing sequence, rm, plan, claim, set, prune, compact) must each answer within 30 s"}
+}
+
+func init() {
+	replayers["layered"] = func(env *core.Env, raw json.RawMessage) bool {
+		var a struct {
+			Req core.Req `json:"req"`
+		}
+		json.Unmarshal(raw, &a)
+		fmt.Printf("  layered store (22 stages x 3 tasks), `%s` as a spawned process with a 30 s limit\n", a.Req.Shell())
+		// rebuild the store exactly as the phase does
+		l := newSynLog()
+		const stages, width = 22, 3
+		var ids [stages][width]string
+		for s := 0; s < stages; s++ {
+			for k := 0; k < width; k++ {
+				ids[s][k] = core.IDFor(int64(20000 + s*width + k))
+				l.Create(SynItem{ID: ids[s][k], Title: fmt.Sprintf("stage %d / %d", s, k)})
+			}
+		}
+		for s := 1; s < stages; s++ {
+			for k := 0; k < width; k++ {
+				for j := 0; j < width; j++ {
+					l.Link(ids[s][k], ids[s-1][j])
+				}
+			}
+		}
+		l.Create(SynItem{ID: core.IDFor(29999), Title: "fresh"})
+		proj := filepath.Join(env.Scratch, "replay", "proj")
+		os.MkdirAll(proj, 0o755)
+		core.Store{".ergo/plans.jsonl": l.Bytes(), ".ergo/lock": nil}.Materialize(proj)
+		r := a.Req
+		r.Cwd = proj
+		r.RandBase = -1
+		done := make(chan core.Res, 1)
+		go func() { done <- core.Spawn{Bin: env.Prod}.Run(r) }()
+		select {
+		case res := <-done:
+			fmt.Printf("  answered: %s\n", res)
+			return res.Timeout || res.Panic
+		case <-time.After(30 * time.Second):
+			fmt.Println("  no answer after 30 s")
+			return true
+		}
+	}
 }
